@@ -415,3 +415,112 @@ def run_forwarding(rec, F, S=None):
             if not ok:
                 rec.finding(RS, "F10.scan/%s" % who, "%s grows its receiver list but does not rescan the roots when the list has moved: stack slots and fields keep pointing at the old allocation" % who, loc=loc_of(t["sp"]), fn=fn.path)
     rec.floor(RS, "receiver-growing list natives", n, 2)
+
+
+# ---------------------------------------------------------------------------
+# F10.dbg — debug/release parity: code that exists only under debug assertions is read-only
+
+_SRC_CACHE = {}
+
+
+def _src_lines(rel):
+    import os
+    if rel not in _SRC_CACHE:
+        try:
+            _SRC_CACHE[rel] = open(os.path.join(factsmod.REPO, rel), encoding="utf-8", errors="replace").read().split("\n")
+        except OSError:
+            _SRC_CACHE[rel] = []
+    return _SRC_CACHE[rel]
+
+
+DBG_SCOPE = {
+    "C01": r"laythe_vm/src/compiler/(scanner|parser)\.rs",
+    "C02": r"laythe_vm/src/compiler/(resolver|mod)\.rs",
+    "C03": r"laythe_core/src/object/(class|instance)\.rs",
+    "C04": r"laythe_vm/src/(fiber/|vm/)",
+    "C05": r"laythe_core/src/(allocator|managed/|collections/|object/)",
+    "C06": r"laythe_vm/src/(byte_code|compiler/mod)\.rs",
+    "C07": r"laythe_vm/src/(fiber/|vm/)|laythe_core/src/object/channel",
+    "C08": r"laythe_vm/src/(fiber/|vm/)|laythe_core/src/object/channel",
+    "C12": r"laythe_vm/src/compiler/peephole\.rs",
+    "C13": r"laythe_vm/src/cache\.rs",
+    "C15": r"laythe_vm/src/byte_code\.rs",
+    "C20": r"laythe_core/src/(allocator|collections/|object/list)",
+}
+
+
+def _fmt_place(fn, pl):
+    out = fn.local_name(pl["l"]) or "_%d" % pl["l"]
+    for pr in pl["p"]:
+        if pr[0] == "deref":
+            out = "(*%s)" % out
+        elif pr[0] == "field":
+            out += "." + str(pr[2] if len(pr) > 2 and pr[2] else pr[1])
+        else:
+            out += "[..]"
+    return out
+
+
+def run_debug_parity(rec, F, prop):
+    R = rec.rule("F10.dbg", "code that is evaluated only when debug assertions are on (the condition and message of debug_assert!/debug_assert_eq!/debug_assert_ne!) takes no &mut borrow of, and performs no store to, state that outlives the assertion: release builds (the shipped interpreter) and debug builds (the test suite) execute the same state transitions")
+    scope = re.compile(DBG_SCOPE[prop])
+    nsite = 0
+    for fn in F.all_fns():
+        if not scope.search(fn.file or "") or "::test" in fn.path or "::tests::" in fn.path:
+            continue
+        blocks = fn.blocks
+        for bi, blk in enumerate(blocks):
+            t = blk["t"]
+            if t["k"] != "switch" or t.get("ty") != "bool":
+                continue
+            # literal `true` condition (what cfg!(debug_assertions) expands to in this build)
+            cv = None
+            if t["on"].get("const"):
+                cv = t["on"].get("int")
+            else:
+                l = op_local(t["on"])
+                if l is not None:
+                    ds = [s for s in blk["s"] if s["d"]["l"] == l and not s["d"]["p"]]
+                    if len(ds) == 1 and ds[0]["r"]["k"] == "use" and ds[0]["r"]["a"].get("const"):
+                        cv = ds[0]["r"]["a"].get("int")
+            if cv != "1":
+                continue
+            file, lo, hi = t["sp"].rsplit(":", 2)
+            lines = _src_lines(file)
+            text = " ".join(lines[int(lo) - 1:int(hi)])
+            m = re.search(r"\b(debug_assert(?:_eq|_ne)?)\s*!", text)
+            if not m:
+                continue
+            nsite += 1
+            true_t = t["otherwise"]
+            false_t = [tb for val, tb in t["targets"] if val == "0"]
+            false_t = false_t[0] if false_t else None
+
+            def reach(start):
+                seen, st = set(), [start]
+                while st:
+                    x = st.pop()
+                    if x in seen or x is None:
+                        continue
+                    seen.add(x)
+                    st.extend(factsmod.succs(blocks[x]["t"]))
+                return seen
+            region = reach(true_t) - reach(false_t)
+            bad = []
+            for b in sorted(region):
+                for s in blocks[b]["s"]:
+                    r = s["r"]
+                    if r["k"] == "ref" and r.get("mut"):
+                        pl = r["a"]
+                        # a &mut of something reached through a pointer/reference or of a by-ref argument
+                        if any(p[0] == "deref" for p in pl["p"]) or 0 < pl["l"] <= fn.argc:
+                            bad.append(("&mut " + _fmt_place(fn, pl), s["sp"]))
+                    if any(p[0] == "deref" for p in s["d"]["p"]):
+                        bad.append(("store to " + _fmt_place(fn, s["d"]), s["sp"]))
+            ok = not bad
+            rec.inst(R, "%s: %s @%s" % (fn.name, m.group(1), lo), ok=ok, loc=loc_of(t["sp"]))
+            if not ok:
+                what = bad[0][0]
+                rec.finding(R, "F10.dbg/%s/%s" % (fn.path, re.sub(r"\s+", "", what)[:80]), "%s: %s! evaluates %s — a state change that only happens in builds with debug assertions; the release interpreter skips it (the suite runs debug builds and cannot see the difference)" % (fn.path, m.group(1), what), loc=loc_of(bad[0][1]), fn=fn.path)
+    rec.inst(R, "debug-only assertion sites examined in scope (%d)" % nsite, ok=True)
+    return nsite
